@@ -335,13 +335,14 @@ def run(ctx):
     ctx.guarded(r, WR.r_interval_ops)
     from .. import a64checks as XC
 
-    r = ctx.rule("R3f", "aarch64 interval assembler: write discipline, hazards, branch targets, call helpers, frame, choice protocol", 28 + 29 + 12 + 2 + 1 + 28)
+    r = ctx.rule("R3f", "aarch64 interval assembler: write discipline, hazards, branch targets, call helpers, frame, choice protocol", 28 + 29 + 12 + 2 + 1 + 28 + 6)
     ctx.guarded(r, XC.check_write_discipline, "interval")
     ctx.guarded(r, XC.check_hazards, "interval")
     ctx.guarded(r, XC.check_branches, "interval")
     ctx.guarded(r, XC.check_call_helpers, "interval")
     ctx.guarded(r, XC.check_frame, "interval")
     ctx.guarded(r, XC.check_choice_protocol, "interval")
+    ctx.guarded(r, XC.check_simple_builders, "interval")
     from .. import a64sem as XS
 
     r = ctx.rule("R3g", "aarch64 interval add / sub / neg / mul / div / immediate forms: bounds are the interval meaning of the opcode; products and quotients cover all four corners and skip NaN corners", 8)
